@@ -1652,6 +1652,10 @@ class RawAlgorithmsMixIn:
         if out is None:
             raise NotImplementedError('should implement that')
 
+        if not numpy.shares_memory(ybar_data, out):
+            # y is a copy of x (x was not contiguous), i.e. ybar is not a view of xbar
+            out += numpy.reshape(ybar_data, x_data.shape)
+
         return numpy.reshape(out, x_data.shape)
 
     @classmethod
